@@ -369,8 +369,18 @@ func (runInfo *runInfoStruct) invokeMemberExpr(expr *ast.MemberExpr) {
 	switch runInfo.rv.Kind() {
 	case reflect.Struct:
 		field, found := runInfo.rv.Type().FieldByName(expr.Name)
+		if found && field.PkgPath != "" {
+			// an unexported field is not a member: its value cannot be handed out
+			found = false
+		}
 		if found {
-			runInfo.rv = runInfo.rv.FieldByIndex(field.Index)
+			var fieldErr error
+			runInfo.rv, fieldErr = runInfo.rv.FieldByIndexErr(field.Index)
+			if fieldErr != nil {
+				// promoted through a nil embedded pointer
+				runInfo.err = newStringError(expr, "no member named '"+expr.Name+"' for struct: "+fieldErr.Error())
+				runInfo.rv = nilValue
+			}
 			return
 		}
 		if runInfo.rv.CanAddr() {
